@@ -24,6 +24,7 @@ REQUIRED_COVER = [
     "padded_leaf",
     "three_levels",
     "three_children_at_branchpoint",
+    "parent_first_mention_unsorted",
     "net_cells_of_different_depth",
     "net_ends_in_point_cell",
     "accepted:jaxley.stone:bwd_euler",
@@ -69,6 +70,15 @@ def _items(tier):
             items.append({"kind": "cell", "parents": list(p), "ncomps": list(nc)})
     import itertools
 
+    if tier == "quick":
+        # shapes beyond the quick bound whose parent list mentions parents in unsorted order (5 branches: one vector; 6: several)
+        extra = [(p, nc) for p in scope.parent_vectors(5) if scope.parents_first_mention_unsorted(p) for nc in scope.ncomp_vectors(5, (1, 2))]
+        extra += [(p, nc) for p in scope.parent_vectors(6) if scope.parents_first_mention_unsorted(p)
+                  for nc in ((1,) * 6, (1, 2, 1, 2, 1, 2), (2, 1, 1, 2, 1, 1))]
+        for p, nc in extra:
+            if (p, nc) not in seen:
+                seen.add((p, nc))
+                items.append({"kind": "cell", "parents": list(p), "ncomps": list(nc)})
     k = 2 if tier == "quick" else 3
     for r in range(2, k + 1):
         for tup in itertools.product(range(len(CATALOGUE)), repeat=r):
